@@ -276,7 +276,75 @@ def rules(ctx, tier):
                                          b.path in behind_cb))
     r.need(1, "prune site")
     out.append(r.finish())
+    out.append(replay_accepts_gaps(ctx, "R8"))
     return out
+
+
+def replay_accepts_gaps(ctx, rid):
+    """A failed append consumes a version number and writes nothing, so the log of a database that went on working after
+    an I/O failure has gaps in its versions.  The replayer must take such a log: it may give up on a record because
+    reading or decoding failed, never because of how the record's version compares with anything."""
+    from . import c02
+    prog = ctx.prog
+    r = Rule(rid, "reopening after a contained failure succeeds: the replayer gives up only on a failing read / decode, "
+                  "never on a comparison of record versions (a failed append leaves a gap in the versions)",
+             "an append fails before its record reaches the file, later operations succeed; a 'versions must be "
+             "contiguous' check added to replay then makes every later open fail")
+    n = 0
+    owners = []
+    from ..prov import _closure_sites
+    for bx in prog.bodies.values():
+        if not c02._replay_callback_sites(ctx, bx):
+            continue
+        # (the per-record work may sit in a closure handed to `try_fold`: the function the closure is written in)
+        cur = bx
+        for _ in range(3):
+            if not cur.is_closure:
+                break
+            cs = _closure_sites(prog, cur.path)
+            if not cs:
+                break
+            cur = cs[0][0]
+        if not cur.is_closure and cur not in owners:
+            owners.append(cur)
+    for b0 in owners:
+        rt = prog.types[b0.locals[0]]
+        if not (rt.get("k") == "adt" and rt["def"] == "std::result::Result"):
+            continue
+        b = ctx.flat(b0, stop=tuple(sorted(cb.path for cb in c02.replay_callbacks(ctx))))
+        rf = ctx.rf(b)
+        err_blocks = set(x for x, k in rf.forwarded.items() if k == "err")
+        ok_blocks = set(x for x, k in rf.forwarded.items() if k != "err")
+        sl = Slicer(ctx.world, b)
+        for sw in b.normal_blocks():
+            t = b.blocks[sw]["term"]
+            if t["k"] != "switch":
+                continue
+            tgts = set(cfgutil.switch_edges(b, sw).values())
+            if len(tgts) < 2:
+                continue
+            fates = {}
+            for x in tgts:
+                reach = cfgutil.reach(b, x)
+                fates[x] = (bool(reach & err_blocks), bool(reach & ok_blocks))
+            if not [x for x, (e, o) in fates.items() if e and not o] or not [x for x, (e, o) in fates.items() if o]:
+                continue
+            n += 1
+            c = cfgutil.switch_condition(b, sw)
+            if not c or c[0] != "cmp":
+                r.ok("give-up:%s" % (c[0] if c else "?"), b0,
+                     "error exit at %s:%d is decided by whether a step produced a value" % (b.file, b.blocks[sw]["span"]["line"]))
+                continue
+            lv = sl.leaves_up(c[2], depth=2) | sl.leaves_up(c[3], depth=2)
+            vers = [l for l in lv if c02.is_version_leaf(ctx, l)]
+            r.check(not vers, "give-up:version-compare", b0,
+                    "error exit at %s:%d does not depend on record versions" % (b.file, b.blocks[sw]["span"]["line"]),
+                    "the replayer rejects the log at %s:%d because of a comparison of record versions (%s): a log with a "
+                    "gap left by a failed append can no longer be opened" % (
+                        b.file, b.blocks[sw]["span"]["line"], ", ".join(sorted(fmt_leaf(l) for l in vers))),
+                    "%s:%d" % (b.file, b.blocks[sw]["span"]["line"]))
+    r.need(1, "error exits of the replayer")
+    return r.finish()
 
 
 def option_unwrap_discharged(ctx, b, site):
